@@ -52,6 +52,18 @@ CLAIMED = {
         "the oracle. Coverage of a table scale is defined as [first entry, last entry) of its table.",
    technique="Lean 4 proof by complete kernel enumeration (decide +kernel over a splitting combinator) and a sorted-table induction + differential correspondence check",
    design="§5 C15"),
+ "C20": dict(
+   text="Lean theorems (Echse.Props.C20) about the transcribed model of WikiSort (insertion sort, binary insertion sort, "
+        "the fixed-point range iterator, the cache merge and the level loop): for every array shorter than 1024 "
+        "elements - every length on which only these paths run - the result is the stable sort of the input "
+        "(permutation, ordered by key, equal keys in input order), for any comparison induced by a key. For lengths "
+        ">= 1024 (in-place block merge) nothing is proved; there the check relies on the differential run against the "
+        "stable-sort specification only. Implementation and model/spec are compared on lengths 0..4096 in many "
+        "orders with index-tagged events.",
+   note="Trusted: Lean kernel, harness hx_cal.c. PARTIAL: the in-place branch of wikisort.c (n >= 1024) is not modelled; "
+        "the comparison's being a key order is C08's ltP theorem.",
+   technique="Lean 4 proof (refinement of each sort phase to the unique stable sort; iterator invariant) + differential correspondence check",
+   design="§5 C20"),
 }
 
 checks = []
